@@ -123,10 +123,11 @@ CHECKS = {
     "C03": {
         "level": "exploration",
         "stall_violation": True,
+        "termination_clauses": {"c03-ack-chains": ["emit-returns"]},
         "groups": [
             {"name": "c03", "run": "^TestC03_", "shards": {"quick": 16, "thorough": 16},
              "timeout": {"quick": 900, "thorough": 3000},
-             "checks": ["c03-acks", "c03-raw-peer", "c03-at-connect"]},
+             "checks": ["c03-acks", "c03-raw-peer", "c03-at-connect", "c03-ack-chains"]},
         ],
     },
     "C12": {
